@@ -647,4 +647,454 @@ Proof. unfold format_contraction. destruct (rmap _ (cs_ops st)) as [es| |] eqn:E
   - intros _. left. apply rmap_refuse in E. destruct E as [op [Hin H]].
     apply refusal_exact_operand in H. exists op; tauto. Qed.
 
+(* ------------------------------------------------------------------ *)
+(** * libtensor backend *)
+
+Notation run_lt := (run_lt S tenv).
+Definition lab (x : index) : string * list nat := (iname x, irange x).
+
+Lemma ldedup_acc_names D seen l : inj_on D -> incl seen D -> incl l D ->
+  ldedup_acc (map iname seen) (map lab l) = map lab (inodup_acc seen l).
+Proof. intros HD. revert seen. induction l as [|x r IH]; intros seen Hs Hl; simpl; [reflexivity|].
+  assert (Hx : In x D) by (apply Hl; left; reflexivity).
+  assert (Hr : incl r D) by (intros z Hz; apply Hl; right; exact Hz).
+  rewrite (str_mem_names D) by assumption.
+  destruct (imem x seen); [apply IH; assumption|].
+  simpl. f_equal. apply (IH (x :: seen)); [|assumption].
+  intros z [<-|Hz]; auto. Qed.
+Lemma ldedup_names D l : inj_on D -> incl l D -> ldedup (map lab l) = map lab (inodup l).
+Proof. intros HD Hl. apply (ldedup_acc_names D [] l); auto. intros z []. Qed.
+
+Lemma lab_dim_names D L x : inj_on D -> incl L D -> In x D -> In x L ->
+  lab_dim (map lab L) (iname x) = irange x.
+Proof. intros HD HL Hx. induction L as [|y r IH]; intros Hin; [destruct Hin|]. simpl.
+  destruct (String.eqb (iname y) (iname x)) eqn:E.
+  - apply String.eqb_eq in E. apply HD in E; auto; [subst; reflexivity|apply HL; left; reflexivity].
+  - destruct Hin as [->|Hin]; [rewrite String.eqb_refl in E; discriminate|].
+    apply IH; [intros z Hz; apply HL; right; exact Hz|exact Hin]. Qed.
+
+Lemma filter_lab_names D tg L : inj_on D -> incl tg D -> incl L D ->
+  filter (fun kd : string * list nat => negb (str_mem (fst kd) (map iname tg))) (map lab L) =
+  map lab (filter (fun x => negb (imem x tg)) L).
+Proof. intros HD Ht HL. induction L as [|x r IH]; simpl; [reflexivity|].
+  assert (Hr : incl r D) by (intros z Hz; apply HL; right; exact Hz).
+  rewrite (str_mem_names D) by (auto; apply HL; left; reflexivity).
+  destruct (imem x tg); simpl; rewrite IH by assumption; reflexivity. Qed.
+
+Lemma combine_lab ix : combine (map iname ix) (map irange ix) = map lab ix.
+Proof. induction ix as [|x r IH]; simpl; [reflexivity|rewrite IH; reflexivity]. Qed.
+
+Lemma depends_on_incl D1 D2 (F : env -> K S) : incl D1 D2 -> depends_on S D1 F -> depends_on S D2 F.
+Proof. intros Hi H r1 r2 Ha. apply H. intros x Hx. apply Ha. apply Hi. exact Hx. Qed.
+
+(* free labels of an expression = names (with ranges) of the indices [ix] *)
+Definition labs_of (e : cexpr) (ix : list index) : Prop :=
+  exists L, fst (run_lt e) = map lab L /\ NoDup L /\ (forall x, In x L <-> In x ix).
+
+Definition entry_ok_lt (ce : string * cexpr) (av : string * stepval) : Prop :=
+  fst ce = fst av /\ labs_of (snd ce) (fst (snd av)) /\
+  (forall p, snd (run_lt (snd ce)) p = snd (snd av) (renv p)) /\
+  depends_on S (fst (snd av)) (snd (snd av)).
+Definition cache_ok_lt (cache : list (string * cexpr)) (acc : list (string * stepval)) : Prop :=
+  Forall2 entry_ok_lt cache acc.
+
+Lemma lookup_cache_ok_lt cache acc nm tv : cache_ok_lt cache acc -> lookup nm acc = Some tv ->
+  exists e, lookup nm cache = Some e /\ labs_of e (fst tv) /\
+            (forall p, snd (run_lt e) p = snd tv (renv p)) /\ depends_on S (fst tv) (snd tv).
+Proof. intros H. induction H as [|[k e] [k' v] cache acc [Hk [Hl [Hv Hd]]] H IH]; simpl; [discriminate|].
+  simpl in *. subst k'. destruct (String.eqb k nm); [|exact IH].
+  intros E; inversion E; subst. exists e; auto. Qed.
+
+Definition op_ok_lt (acc : list (string * stepval)) (op : string * list index) : Prop :=
+  if is_contraction (fst op) then exists v, lookup (fst op) acc = Some (snd op, v)
+  else forall n, translate_libadc cfg (fst op) (snd op) = Ok n ->
+       dims_ok (snd op) (tenv n) /\
+       forall r, aval S (tenv n) (map r (snd op)) = B (fst op) (snd op) r.
+
+Definition opR_lt (acc : list (string * stepval)) (op : string * list index) (e : cexpr) : Prop :=
+  labs_of e (snd op) /\
+  (forall p, snd (run_lt e) p = operand_val S B acc op (renv p)) /\
+  depends_on S (snd op) (operand_val S B acc op).
+
+Lemma format_operand_lt D cache acc con op e : inj_on D -> incl (snd op) D ->
+  cache_ok_lt cache acc -> op_ok_lt acc op ->
+  format_operand cfg Libtensor cache con op = Ok e -> opR_lt acc op e.
+Proof. intros HD Hi Hc Ho. destruct op as [nm idx]. unfold op_ok_lt, opR_lt, operand_val, format_operand in *. simpl in *.
+  destruct (is_contraction nm).
+  - destruct Ho as [v Hv]. destruct (lookup_cache_ok_lt _ _ _ _ Hc Hv) as [e' [He [Hl [Hval Hd]]]].
+    rewrite He. intros E; inversion E; subst. rewrite Hv. simpl in *. auto.
+  - destruct (partial_trace con idx); [discriminate|].
+    destruct (translate_libadc cfg nm idx) as [n| |] eqn:En; try discriminate. simpl.
+    intros E; inversion E; subst. destruct (Ho n eq_refl) as [Hd Hv]. simpl. split; [|split].
+    + exists (inodup idx). unfold dims_ok in Hd. simpl. rewrite Hd, combine_lab. split; [apply (ldedup_names D); auto|].
+      split; [apply inodup_NoDup|apply inodup_In].
+    + intros p. rewrite map_map. apply Hv.
+    + intros r1 r2 Ha. rewrite <- !Hv. rewrite (map_agree _ _ _ Ha). reflexivity. Qed.
+
+Lemma rmap_ok_forall2 {A A2} (f : A -> res A2) l ys : rmap f l = Ok ys -> Forall2 (fun a y => f a = Ok y) l ys.
+Proof. revert ys. induction l as [|a r IH]; simpl; intros ys H; [inversion H; constructor|].
+  destruct (f a) as [y| |] eqn:E; try discriminate. simpl in H.
+  destruct (rmap f r) as [ys'| |]; try discriminate. simpl in H. inversion H; subst.
+  constructor; [exact E|apply IH; reflexivity]. Qed.
+
+Definition tensor_op (op : string * list index) : bool := negb (is_nil (snd op)).
+Definition factor_op (op : string * list index) : bool := is_nil (snd op).
+
+Lemma split_operands_lt (R : (string * list index) -> cexpr -> Prop) ops es : Forall2 R ops es ->
+  let tagged := combine es (map snd ops) in
+  Forall2 R (filter tensor_op ops) (map fst (filter nonempty tagged)) /\
+  Forall2 R (filter factor_op ops) (map fst (filter (fun p => is_nil (snd p)) tagged)).
+Proof. intros H. induction H as [|op e ops es HR H IH]; simpl; [split; constructor|].
+  destruct IH as [I1 I2]. unfold tensor_op at 1, factor_op at 1, nonempty at 1. simpl.
+  destruct (snd op); simpl; split; auto. Qed.
+
+Lemma lt_prod_ops acc ops es p : Forall2 (opR_lt acc) ops es ->
+  lt_prod S (map run_lt es) p = kprod (map (fun op => operand_val S B acc op (renv p)) ops).
+Proof. intros H. induction H as [|op e ops es [_ [Hv _]] H IH]; simpl; [reflexivity|].
+  unfold lt_prod in *. simpl. rewrite Hv, IH. reflexivity. Qed.
+
+Lemma ops_depends acc ops es : Forall2 (opR_lt acc) ops es ->
+  depends_on S (List.concat (map snd ops)) (fun r => kprod (map (fun op => operand_val S B acc op r) ops)).
+Proof. intros H. induction H as [|op e ops es [_ [_ Hd]] H IH]; simpl; intros r1 r2 Ha; [reflexivity|].
+  apply agree_app in Ha. destruct Ha as [H1 H2]. rewrite (Hd r1 r2 H1). f_equal. apply IH; exact H2. Qed.
+
+Lemma labels_union D acc ops es : inj_on D -> incl (List.concat (map snd ops)) D ->
+  Forall2 (opR_lt acc) ops es ->
+  exists L, lt_labels S (map run_lt es) = map lab L /\ NoDup L /\
+            (forall x, In x L <-> In x (List.concat (map snd ops))).
+Proof. intros HD Hi H.
+  assert (HL : exists Ls, List.concat (map (fun v : ltens S => fst v) (map run_lt es)) = map lab Ls /\
+                          (forall x, In x Ls <-> In x (List.concat (map snd ops)))).
+  { induction H as [|op e ops es [[L [HL [_ HLs]]] _] H IH]; simpl; [exists []; split; [reflexivity|tauto]|].
+    simpl in Hi. destruct IH as [Ls [E1 E2]]; [intros z Hz; apply Hi; apply in_or_app; right; exact Hz|].
+    exists (L ++ Ls). rewrite HL, E1, map_app. split; [reflexivity|].
+    intros x. rewrite !in_app_iff, HLs, E2. tauto. }
+  destruct HL as [Ls [E1 E2]]. exists (inodup Ls). unfold lt_labels. rewrite E1.
+  split; [apply (ldedup_names D); auto; intros z Hz; apply Hi; apply E2; exact Hz|].
+  split; [apply inodup_NoDup|]. intros x. rewrite inodup_In. apply E2. Qed.
+
+Lemma no_labels e : labs_of e [] -> fst (run_lt e) = [].
+Proof. intros [L [HL [_ Hs]]]. rewrite HL. destruct L as [|x L]; [reflexivity|].
+  exfalso. apply (Hs x). left; reflexivity. Qed.
+
+Lemma cmul_factors factors Xs : Forall (fun e => fst (run_lt e) = []) factors ->
+  fst (run_lt (CMul (factors ++ Xs))) = lt_labels S (map run_lt Xs) /\
+  forall p, snd (run_lt (CMul (factors ++ Xs))) p =
+            lt_prod S (map run_lt factors) p * lt_prod S (map run_lt Xs) p.
+Proof. intros H. simpl. rewrite map_app. split.
+  - unfold lt_labels. rewrite map_app, concat_app. f_equal.
+    replace (List.concat (map (fun v : ltens S => fst v) (map run_lt factors))) with (@nil (string * list nat)); [reflexivity|].
+    induction H as [|e r He H IH]; simpl; [reflexivity|]. rewrite He. simpl. exact IH.
+  - intros p. unfold lt_prod. rewrite map_app, kprod_app. reflexivity. Qed.
+
+Lemma iname_nonempty x : iname x <> EmptyString.
+Proof. Local Transparent iname. unfold iname, chr. simpl. discriminate. Local Opaque iname. Qed.
+Lemma cat_names_empty l : cat (map iname l) = EmptyString -> l = [].
+Proof. destruct l as [|x r]; [reflexivity|]. unfold cat. simpl.
+  destruct (iname x) eqn:E; [exfalso; apply (iname_nonempty x); exact E|].
+  destruct (map iname r); simpl; discriminate. Qed.
+
+Definition step_ok_lt (D : list index) (acc : list (string * stepval)) (st : cstep) : Prop :=
+  step_wf st = true /\ Forall (op_ok_lt acc) (cs_ops st) /\
+  incl (step_idx st) D /\ incl (cs_tgt st) D.
+
+Lemma step_val_depends acc st es : step_facts st -> Forall2 (opR_lt acc) (cs_ops st) es ->
+  depends_on S (cs_tgt st) (step_val acc st).
+Proof. intros [F1 F2 F3 F4] H r1 r2 Ha. unfold Codegen.step_val.
+  apply (sum_over_agree S T (step_idx st)); [apply (ops_depends acc _ es H)|].
+  intros x Hx Hn. apply Ha. destruct (F4 x Hx); tauto. Qed.
+
+Lemma factors_no_labels acc l es : (forall op, In op l -> snd op = []) ->
+  Forall2 (opR_lt acc) l es -> Forall (fun e => fst (run_lt e) = []) es.
+Proof. intros Hl H. induction H as [|op e ops es0 [Hlab _] H IH]; constructor.
+  - apply no_labels. rewrite <- (Hl op (or_introl eq_refl)). exact Hlab.
+  - apply IH. intros op' Hop'. apply Hl; right; exact Hop'. Qed.
+Lemma concat_tensor_ops (ops : list (string * list index)) :
+  List.concat (map snd (filter tensor_op ops)) = List.concat (map snd ops).
+Proof. induction ops as [|op r IH]; simpl; [reflexivity|]. unfold tensor_op at 1.
+  destruct (snd op) eqn:E; simpl; [exact IH|]. rewrite E, IH. reflexivity. Qed.
+Lemma is_nil_true {A} (l : list A) : is_nil l = true -> l = [].
+Proof. destruct l; [reflexivity|discriminate]. Qed.
+
+(** the text emitted for one step (libtensor backend): whenever a text is
+    produced, its free labels are the names of the step's target indices and
+    its value is the sum over the contracted indices of the product of the
+    operands *)
+Theorem codegen_step_semantics_lt D cache acc st e :
+  inj_on D -> cache_ok_lt cache acc -> step_ok_lt D acc st ->
+  format_contraction cfg Libtensor cache st = Ok e ->
+  labs_of e (cs_tgt st) /\
+  (forall p, snd (run_lt e) p = step_val acc st (renv p)) /\
+  depends_on S (cs_tgt st) (step_val acc st).
+Proof. intros HD Hc [Hwf [Hops [Hix Htg]]] Hfc. unfold format_contraction in Hfc.
+  destruct (rmap _ (cs_ops st)) as [es| |] eqn:Hes; try discriminate. simpl in Hfc.
+  assert (HF : Forall2 (opR_lt acc) (cs_ops st) es).
+  { apply rmap_ok_forall2 in Hes. clear Hfc.
+    assert (Hi : forall op, In op (cs_ops st) -> incl (snd op) D).
+    { intros op Hop z Hz. apply Hix. unfold step_idx. apply in_concat. exists (snd op). split; [apply in_map; exact Hop|exact Hz]. }
+    revert Hops Hi. induction Hes as [|op e0 ops es0 He Hes IH]; intros Hops Hi; constructor.
+    - inversion Hops; subst. eapply (format_operand_lt D); eauto. apply Hi; left; reflexivity.
+    - inversion Hops; subst. apply IH; auto. intros op' Hop'. apply Hi; right; exact Hop'. }
+  assert (Hsf := step_wf_facts st Hwf).
+  assert (Hdep := step_val_depends acc st es Hsf HF).
+  destruct Hsf as [F1 F2 F3 F4].
+  destruct (split_operands_lt (opR_lt acc) _ _ HF) as [HT HFa].
+  change (fun p : cexpr * list index => negb (is_nil (snd p))) with nonempty in Hfc.
+  set (tes := map fst (filter nonempty (combine es (map snd (cs_ops st))))) in *.
+  set (factors := map fst (filter (fun p : cexpr * list index => is_nil (snd p)) (combine es (map snd (cs_ops st))))) in *.
+  set (tops := filter tensor_op (cs_ops st)) in *.
+  set (fops := filter factor_op (cs_ops st)) in *.
+  assert (Hfl : Forall (fun e => fst (run_lt e) = []) factors).
+  { apply (factors_no_labels acc fops); [|exact HFa]. intros op Hop. unfold fops in Hop.
+    apply filter_In in Hop. destruct Hop as [_ Hop]. apply is_nil_true. exact Hop. }
+  assert (Hcat : List.concat (map snd tops) = step_idx st) by apply concat_tensor_ops.
+  assert (HiT : incl (List.concat (map snd tops)) D) by (rewrite Hcat; exact Hix).
+  destruct (labels_union D acc tops tes HD HiT HT) as [L [HL [HLnd HLs]]]. rewrite Hcat in HLs.
+  assert (HLD : incl L D) by (intros z Hz; apply Hix; apply HLs; exact Hz).
+  set (F' := fun r : env => kprod (map (fun op => operand_val S B acc op r) tops)).
+  assert (HF' : depends_on S D F').
+  { apply (depends_on_incl (List.concat (map snd tops))); [exact HiT|]. apply (ops_depends acc tops tes HT). }
+  assert (HFp : forall p, lt_prod S (map run_lt tes) p = F' (renv p)) by (intros p; apply lt_prod_ops; exact HT).
+  (* closing argument, generic in the shape Xs of the tensor part *)
+  assert (Hclose : forall Xs, e = CMul (factors ++ Xs) ->
+     (exists L', lt_labels S (map run_lt Xs) = map lab L' /\ NoDup L' /\ (forall x, In x L' <-> In x (cs_tgt st))) ->
+     (forall p, lt_prod S (map run_lt Xs) p = sum_over (cs_con st) (renv p) F') ->
+     labs_of e (cs_tgt st) /\ (forall p, snd (run_lt e) p = step_val acc st (renv p))).
+  { intros Xs He HlabX HvalX. subst e. destruct (cmul_factors factors Xs Hfl) as [C1 C2]. split.
+    - unfold labs_of. rewrite C1. exact HlabX.
+    - intros p. rewrite C2, HvalX. unfold Codegen.step_val.
+      rewrite (lt_prod_ops acc fops factors p HFa).
+      rewrite <- (sum_over_scal S T). apply sum_over_ext. intros r'.
+      symmetry. rewrite (kprod_filter (fun op => operand_val S B acc op r') factor_op (cs_ops st)).
+      unfold F'. f_equal.
+      apply (ops_depends acc fops factors HFa). intros x Hx. exfalso.
+      assert (Hn : forall l : list (string * list index), (forall op, In op l -> snd op = []) -> List.concat (map snd l) = []).
+      { induction l as [|o l IHl]; intros Hl; simpl; [reflexivity|].
+        rewrite (Hl o (or_introl eq_refl)). simpl. apply IHl. intros op Hop; apply Hl; right; exact Hop. }
+      rewrite Hn in Hx; [destruct Hx|]. intros op Hop. unfold fops in Hop. apply filter_In in Hop.
+      destruct Hop as [_ Hop]. apply is_nil_true; exact Hop. }
+  (* the shape with no contracted index: product of the tensors *)
+  assert (Hplain : cs_con st = [] -> e = CMul (factors ++ tes) ->
+     labs_of e (cs_tgt st) /\ (forall p, snd (run_lt e) p = step_val acc st (renv p))).
+  { intros Hc0 He. apply (Hclose tes He).
+    - exists L. split; [exact HL|split; [exact HLnd|]]. intros x. rewrite HLs. split; [|apply F3].
+      intros Hx. destruct (F4 x Hx) as [H|H]; [exact H|]. rewrite Hc0 in H. destruct H.
+    - intros p. rewrite Hc0. simpl. apply HFp. }
+  assert (Hmain : labs_of e (cs_tgt st) /\ (forall p, snd (run_lt e) p = step_val acc st (renv p))).
+  { unfold format_libtensor in Hfc.
+    destruct tes as [|t0 [|t1 tes']] eqn:Etes.
+    - inversion Hfc; subst e. apply Hplain; [|rewrite app_nil_r; reflexivity].
+      destruct (cs_con st) as [|x l]; [reflexivity|]. destruct (F2 x (or_introl eq_refl)) as [Hx _].
+      apply HLs in Hx. rewrite <- Hcat in HLs. simpl in HL.
+      assert (L = []) by (destruct L; [reflexivity|discriminate]). subst L. destruct Hx.
+    - destruct (is_nil (cs_con st)) eqn:Ec; try discriminate. inversion Hfc; subst e.
+      apply Hplain; [apply is_nil_true; exact Ec|reflexivity].
+    - destruct (is_nil (cs_con st)) eqn:Ec; destruct (String.eqb (cat (map iname (cs_tgt st))) "") eqn:Et;
+        try discriminate; inversion Hfc; subst e; clear Hfc.
+      + (* outer product *) apply Hplain; [apply is_nil_true; exact Ec|reflexivity].
+      + (* dot_product *)
+        apply String.eqb_eq in Et. apply cat_names_empty in Et.
+        apply (Hclose [CDot (t0 :: t1 :: tes')] eq_refl).
+        * exists []. rewrite Et. split; [reflexivity|split; [constructor|tauto]].
+        * intros p. unfold lt_prod at 1. simpl map. simpl kprod.
+          change (map run_lt (t0 :: t1 :: tes')) with (run_lt t0 :: run_lt t1 :: map run_lt tes').
+          fold (lt_labels S (run_lt t0 :: run_lt t1 :: map run_lt tes')).
+          simpl in HL. rewrite HL. rewrite map_map. simpl.
+          transitivity (sum_over L (renv p) F').
+          -- transitivity (lsum S (map iname L) (lab_dim (map lab L)) p (lt_prod S (run_lt t0 :: run_lt t1 :: map run_lt tes')) * 1); [reflexivity|].
+             assert (Hdim : forall x, In x L -> lab_dim (map lab L) (iname x) = irange x)
+               by (intros x Hx; apply (lab_dim_names D); auto).
+             rewrite (lsum_sum_over D L (lab_dim (map lab L)) (lt_prod S (run_lt t0 :: run_lt t1 :: map run_lt tes')) F' HD HLD HF' Hdim HFp p). ring.
+          -- apply (sum_over_perm S T D); [exact HF'|exact HLnd|].
+             apply NoDup_Permutation; [exact HLnd|exact F1|]. intros x. rewrite HLs. split.
+             ++ intros Hx. destruct (F4 x Hx) as [H|H]; [rewrite Et in H; destruct H|exact H].
+             ++ intros Hx. apply F2; exact Hx.
+      + (* contract *)
+        apply (Hclose [CContract (map iname (cs_con st)) (t0 :: t1 :: tes')] eq_refl).
+        * exists (inodup (filter (fun x => negb (imem x (cs_con st))) L)).
+          unfold lt_labels at 1. simpl map. simpl List.concat. rewrite app_nil_r.
+          change (map run_lt (t0 :: t1 :: tes')) with (run_lt t0 :: run_lt t1 :: map run_lt tes').
+          simpl in HL. rewrite HL.
+          assert (HcD : incl (cs_con st) D) by (intros z Hz; apply Hix; apply F2; exact Hz).
+          rewrite (filter_lab_names D) by assumption.
+          split; [apply (ldedup_names D); auto; intros z Hz; apply filter_In in Hz; apply HLD; tauto|].
+          split; [apply inodup_NoDup|]. intros x. rewrite inodup_In, filter_In, negb_true_iff, imem_nIn, HLs.
+          split; [intros [Hx Hn]; destruct (F4 x Hx); tauto|].
+          intros Hx. split; [apply F3; exact Hx|]. intros Hc'. apply F2 in Hc'. tauto.
+        * intros p. unfold lt_prod at 1. simpl map. simpl kprod.
+          change (map run_lt (t0 :: t1 :: tes')) with (run_lt t0 :: run_lt t1 :: map run_lt tes').
+          simpl in HL. rewrite HL.
+          transitivity (lsum S (map iname (cs_con st)) (lab_dim (map lab L)) p (lt_prod S (run_lt t0 :: run_lt t1 :: map run_lt tes')) * 1); [reflexivity|].
+          assert (HcD : incl (cs_con st) D) by (intros z Hz; apply Hix; apply F2; exact Hz).
+          assert (Hdim : forall x, In x (cs_con st) -> lab_dim (map lab L) (iname x) = irange x).
+          { intros x Hx. apply (lab_dim_names D); auto; apply HLs; apply F2; exact Hx. }
+          rewrite (lsum_sum_over D (cs_con st) (lab_dim (map lab L)) (lt_prod S (run_lt t0 :: run_lt t1 :: map run_lt tes')) F' HD HcD HF' Hdim HFp p). ring. }
+  destruct Hmain as [M1 M2]. split; [exact M1|split; [exact M2|exact Hdep]].
+Qed.
+
+Fixpoint scheme_ok_lt (D : list index) (acc : list (string * stepval)) (steps : list cstep) : Prop :=
+  match steps with
+  | [] => True
+  | st :: r => step_ok_lt D acc st /\ scheme_ok_lt D ((cs_name st, (cs_tgt st, step_val acc st)) :: acc) r
+  end.
+Lemma scheme_ok_lt_app D acc l1 l2 : scheme_ok_lt D acc (l1 ++ l2) <->
+  scheme_ok_lt D acc l1 /\ scheme_ok_lt D (scheme_vals acc l1) l2.
+Proof. revert acc. induction l1 as [|st r IH]; intros acc; simpl; [tauto|]. rewrite IH. tauto. Qed.
+
+Lemma build_cache_lt D inner : forall cache acc cache',
+  inj_on D -> cache_ok_lt cache acc -> scheme_ok_lt D acc inner ->
+  build_cache cfg Libtensor cache inner = Ok cache' -> cache_ok_lt cache' (scheme_vals acc inner).
+Proof. induction inner as [|st r IH]; intros cache acc cache' HD Hc Hok; simpl.
+  - intros H; inversion H; subst; exact Hc.
+  - destruct Hok as [Hst Hr].
+    destruct (format_contraction cfg Libtensor cache st) as [e| |] eqn:He; try discriminate. simpl.
+    destruct (codegen_step_semantics_lt D cache acc st e HD Hc Hst He) as [Hl [Hv Hd]].
+    apply IH; auto. constructor; [|exact Hc]. unfold entry_ok_lt; simpl. auto. Qed.
+
+(** whole line of a term, libtensor backend *)
+Theorem codegen_term_semantics_lt D t l steps :
+  inj_on D -> ct_hasidx t = true -> ct_scheme t = Ok steps -> scheme_ok_lt D [] steps ->
+  gen_term cfg hf Libtensor t = Ok l ->
+  exists inner o e cm, steps = inner ++ [o] /\ l_neg l = ct_neg t /\ l_body l = Some (e, cm) /\
+    format_prefactor hf Libtensor (ct_nums t) (ct_syms t) = Ok (l_pref l) /\
+    labs_of e (cs_tgt o) /\
+    forall tg p, run_line S T tenv Libtensor tg l p =
+              ksgn (ct_neg t) * kprod (map (pfac_val S T) (l_pref l)) *
+              step_val (scheme_vals [] inner) o (renv p).
+Proof. intros HD Hidx Hsch Hok H. unfold gen_term in H.
+  destruct (format_prefactor hf Libtensor (ct_nums t) (ct_syms t)) as [pf| |] eqn:Epf; try discriminate.
+  simpl in H. rewrite Hidx, Hsch in H. simpl in H.
+  destruct (format_scaling_comment Libtensor (ct_objspaces t) steps) as [cm| |]; try discriminate. simpl in H.
+  destruct (split_inner_outer steps) as [inner outer] eqn:Esp.
+  destruct (build_cache cfg Libtensor [] inner) as [cache| |] eqn:Ebc; try discriminate. simpl in H.
+  destruct outer as [|o [|o2 outer]]; try discriminate.
+  apply split_single_outer in Esp. subst steps.
+  apply scheme_ok_lt_app in Hok. destruct Hok as [Hin Hout]. simpl in Hout. destruct Hout as [Ho _].
+  assert (Hc := build_cache_lt D inner [] [] cache HD (Forall2_nil _) Hin Ebc).
+  destruct (format_contraction cfg Libtensor cache o) as [e| |] eqn:He; try discriminate. simpl in H.
+  destruct (codegen_step_semantics_lt D cache (scheme_vals [] inner) o e HD Hc Ho He) as [Hl [Hv Hd]].
+  inversion H; subst l. exists inner, o, e, cm. simpl. repeat split; auto.
+  intros tg p. unfold run_line; simpl. rewrite Hv. reflexivity. Qed.
+
+(* ------------------------------------------------------------------ *)
+(** * Whole program: blocks of lines under permutation operators *)
+
+(* reference value of a block: X + sum_k sign_k X o pi_k, X = sum of the
+   values V of its terms (functions of the index assignment) *)
+Definition block_ref (bi : list (list (index * index) * Z) * list (env -> K S)) (r : env) : K S :=
+  let X := fun r' => ksum (snd bi) (fun V => V r') in
+  X r + ksum (fst bi) (fun pf => sgnZ (snd pf) * X (fun x => r (perm_idx (fst pf) x))).
+
+Definition line_ok (be : backend) (tgt : list string) (D : list index) (V : env -> K S) (l : line) : Prop :=
+  depends_on S D V /\ forall p, run_line S T tenv be tgt l p = V (renv p).
+Definition block_ok (be : backend) (tgt : list string) (D : list index)
+           (bi : list (list (index * index) * Z) * list (env -> K S)) (b : permsym * list line) : Prop :=
+  gen_permsym (fst bi) = Ok (fst b) /\ Forall2 (line_ok be tgt D) (snd bi) (snd b) /\
+  (forall pf pq, In pf (fst bi) -> In pq (fst pf) -> In (fst pq) D /\ In (snd pq) D).
+
+Lemma ksum_lines be tgt D Vs ls : Forall2 (line_ok be tgt D) Vs ls ->
+  depends_on S D (fun r => ksum Vs (fun V => V r)) /\
+  forall p, ksum ls (fun l => run_line S T tenv be tgt l p) = ksum Vs (fun V => V (renv p)).
+Proof. intros H. induction H as [|V l Vs ls [Hd Hv] H [I1 I2]]; simpl; split; auto.
+  - intros r1 r2 _; reflexivity.
+  - intros r1 r2 Ha. rewrite (Hd r1 r2 Ha), (I1 r1 r2 Ha). reflexivity.
+  - intros p. rewrite Hv, I2. reflexivity. Qed.
+
+(** the value of the whole emitted program is the sum over its blocks of the
+    permutation-symmetrised sums of the term values *)
+Theorem codegen_prog_semantics be tgt D bis pr :
+  inj_on D -> Forall2 (block_ok be tgt D) bis pr ->
+  forall p, run_prog S T tenv be tgt pr p = ksum bis (fun bi => block_ref bi (renv p)).
+Proof. intros HD H p. unfold run_prog. induction H as [|bi b bis pr [Hg [Hl Hin]] H IH]; simpl; [reflexivity|].
+  rewrite IH. f_equal. unfold run_block, block_ref.
+  destruct (ksum_lines be tgt D _ _ Hl) as [Hd Hv].
+  rewrite (perm_apply_semantics D (fst bi) (fst b) _ (fun r => ksum (snd bi) (fun V => V r)) HD Hin Hg Hd Hv p).
+  reflexivity. Qed.
+
+(* ------------------------------------------------------------------ *)
+(** * Unoptimised scheme = the term (Core semantics) *)
+
+(* the single simultaneous contraction of all objects of a term computes the
+   term: value of the step * coefficient = eval_term *)
+Theorem unoptimized_step_is_term (tm : term) (tg : list index) nm ops con tgt :
+  Forall2 (fun op f => snd f = false /\ is_contraction (fst op) = false /\
+                       forall r, B (fst op) (snd op) r = atom_val S T r (fst f)) ops (tfacs tm) ->
+  NoDup con -> (forall x, In x con <-> In x (contracted tg tm)) ->
+  forall r, ofQ S (tcoef tm) * step_val [] (CStep nm ops con tgt) r = eval_term S T tg r tm.
+Proof. intros HF Hnd Hset r. unfold eval_term, Codegen.step_val; simpl.
+  rewrite <- (sum_over_scal S T).
+  assert (Hdep : depends_on S (term_idx tm) (fun r' => term_val S T r' tm)).
+  { intros r1 r2 Ha. apply term_val_agree. exact Ha. }
+  transitivity (sum_over con r (fun r' => term_val S T r' tm)).
+  - apply sum_over_ext. intros r'. unfold term_val, mono_val. f_equal.
+    clear - HF. induction HF as [|op f ops fs [Hinv [Hc Hv]] HF IH]; simpl; [reflexivity|].
+    rewrite IH. f_equal. unfold operand_val. rewrite Hc. rewrite Hv. unfold fac_val. rewrite Hinv. reflexivity.
+  - apply (sum_over_perm S T (term_idx tm)); [exact Hdep|exact Hnd|].
+    apply NoDup_Permutation; [exact Hnd| |exact Hset].
+    unfold contracted, contracted_of. apply NoDup_filter. apply inodup_NoDup. Qed.
+
+(* ------------------------------------------------------------------ *)
+(** * The decidable checks evaluated on every observed scheme imply the
+      structural hypotheses of the theorems *)
+
+Lemma idx_list_eqb_eq a b : idx_list_eqb a b = true -> a = b.
+Proof. revert b. induction a as [|x a IH]; intros [|y b]; simpl; try discriminate; [reflexivity|].
+  intros H. apply andb_true_iff in H. destruct H as [H1 H2]. apply index_eqb_eq in H1. subst. f_equal. apply IH; exact H2. Qed.
+
+Definition prev_of (acc : list (string * stepval)) : list (string * list index) :=
+  map (fun av : string * stepval => (fst av, fst (snd av))) acc.
+Lemma lookup_prev acc nm tg : lookup nm (prev_of acc) = Some tg -> exists v, lookup nm acc = Some (tg, v).
+Proof. induction acc as [|[k [tg' v]] acc IH]; simpl; [discriminate|].
+  destruct (String.eqb k nm); [intros H; inversion H; subst; exists v; reflexivity|exact IH]. Qed.
+
+(* base operands are bound to their printed names (numpy / libtensor) *)
+Definition base_bound_np (steps : list cstep) : Prop :=
+  forall op, In op (base_ops steps) ->
+    dims_ok (snd op) (tenv (translate_adcc cfg (fst op) (snd op))) /\
+    forall r, aval S (tenv (translate_adcc cfg (fst op) (snd op))) (map r (snd op)) = B (fst op) (snd op) r.
+Definition base_bound_lt (steps : list cstep) : Prop :=
+  forall op, In op (base_ops steps) -> forall n, translate_libadc cfg (fst op) (snd op) = Ok n ->
+    dims_ok (snd op) (tenv n) /\ forall r, aval S (tenv n) (map r (snd op)) = B (fst op) (snd op) r.
+
+Lemma base_ops_cons st r op : In op (cs_ops st) -> is_contraction (fst op) = false -> In op (base_ops (st :: r)).
+Proof. intros H1 H2. unfold base_ops. simpl. rewrite filter_app. apply in_or_app. left.
+  apply filter_In. split; [exact H1|rewrite H2; reflexivity]. Qed.
+Lemma base_ops_tail st r op : In op (base_ops r) -> In op (base_ops (st :: r)).
+Proof. unfold base_ops. simpl. rewrite filter_app. intros H. apply in_or_app. right; exact H. Qed.
+
+Lemma scheme_idx_cons st r D : incl (scheme_idx (st :: r)) D ->
+  incl (step_idx st) D /\ incl (cs_tgt st) D /\ incl (scheme_idx r) D.
+Proof. unfold scheme_idx. simpl. intros H. repeat split; intros z Hz; apply H.
+  - apply in_or_app; left. apply in_or_app; left; exact Hz.
+  - apply in_or_app; left. apply in_or_app; right. apply in_or_app; right; exact Hz.
+  - apply in_or_app; right; exact Hz. Qed.
+
+Lemma scheme_ok_of_checks D steps : forall acc,
+  forallb step_wf steps = true -> link_ok (prev_of acc) steps = true ->
+  base_bound_np steps -> incl (scheme_idx steps) D -> scheme_ok D acc steps.
+Proof. induction steps as [|st r IH]; intros acc Hwf Hl Hb Hi; simpl; [exact I|].
+  simpl in Hwf, Hl. apply andb_true_iff in Hwf. destruct Hwf as [W1 W2].
+  apply andb_true_iff in Hl. destruct Hl as [L1 L2].
+  destruct (scheme_idx_cons st r D Hi) as [I1 [I2 I3]]. split.
+  - unfold step_ok. repeat split; auto. rewrite forallb_forall in L1. apply Forall_forall. intros op Hop.
+    specialize (L1 op Hop). unfold op_ok. destruct (is_contraction (fst op)) eqn:Ec.
+    + destruct (lookup (fst op) (prev_of acc)) as [tg|] eqn:El; try discriminate.
+      apply idx_list_eqb_eq in L1. subst tg. apply lookup_prev; exact El.
+    + apply Hb. apply base_ops_cons; assumption.
+  - apply IH; auto. intros op Hop. apply Hb. apply base_ops_tail; exact Hop. Qed.
+
+Lemma scheme_ok_lt_of_checks D steps : forall acc,
+  forallb step_wf steps = true -> link_ok (prev_of acc) steps = true ->
+  base_bound_lt steps -> incl (scheme_idx steps) D -> scheme_ok_lt D acc steps.
+Proof. induction steps as [|st r IH]; intros acc Hwf Hl Hb Hi; simpl; [exact I|].
+  simpl in Hwf, Hl. apply andb_true_iff in Hwf. destruct Hwf as [W1 W2].
+  apply andb_true_iff in Hl. destruct Hl as [L1 L2].
+  destruct (scheme_idx_cons st r D Hi) as [I1 [I2 I3]]. split.
+  - unfold step_ok_lt. repeat split; auto. rewrite forallb_forall in L1. apply Forall_forall. intros op Hop.
+    specialize (L1 op Hop). unfold op_ok_lt. destruct (is_contraction (fst op)) eqn:Ec.
+    + destruct (lookup (fst op) (prev_of acc)) as [tg|] eqn:El; try discriminate.
+      apply idx_list_eqb_eq in L1. subst tg. apply lookup_prev; exact El.
+    + apply Hb. apply base_ops_cons; assumption.
+  - apply IH; auto. intros op Hop. apply Hb. apply base_ops_tail; exact Hop. Qed.
+
 End Sem.
